@@ -60,6 +60,16 @@ def run(ctx):
     # remote mode: the local store is never touched (the master is unreachable here)
     scs.append(scen("remote-logins", "http://127.0.0.1:9/api/update", one(login("c1", "u1", "p1"), login("c2", "u2", "p2")),
                     expect_unchanged=True, expect_prop="C12", expect_key="store-modified-in-remote-mode"))
+    # remote mode end to end: a second real agent as master.  The upgrade request must reach it (and rewrite the
+    # record there) also after the master has been unavailable for more attempts than the upgrader has slots.
+    burst = {"t": "load", "clients": 1, "calls": 14, "kinds": ["auth"], "users": ["u1"], "pws": ["p1"]}
+    scs.append(scen("master-upgrade", "master", one(login("c1", "u2", "p2")), novalidate=True, expect_unchanged=True,
+                    expect_master={"u2": {"set": 2, "pw": "p2", "adm": True, "aux": "orig"}}, expect_prop="C12",
+                    expect_key_master="remote-upgrade-did-not-reach-master"))
+    scs.append(scen("master-outage-then-upgrade", "master",
+                    [{"t": "master_down"}, burst, {"t": "sleep", "n": 300}, {"t": "master_up"}, login("c9", "u1", "p1"), {"t": "free"}],
+                    novalidate=True, expect_unchanged=True, expect_master={"u1": {"set": 2, "pw": "p1", "adm": False, "aux": "orig"}},
+                    expect_prop="C12", expect_key_master="remote-upgrade-stops-after-master-outage"))
     # gated: the stale-upgrade counterexample and simulated behaviours
     if cex:
         scs.append(af.scenario_from_cex(cex, "cex-stale-upgrade", "local"))
